@@ -35,7 +35,8 @@ class Parser(Emitter):
             error = str(formulaserror.from_message(e))
 
         if isinstance(result, formulaserror.XLError):
-            error = str(result)
+            # host functions may hand back their own XLError objects: report only canonical codes
+            error = str(formulaserror.from_message(result))
             result = None
         return {'result': result, 'error': error}
 
